@@ -1363,14 +1363,14 @@ fn fam_migrate(r: &mut Rng) -> Result<(), String> {
             for i in 0..n {
                 let p = v1_0_0::IBCTransfer { sequence: 100 + i, amount: r.amount().min(10u128.pow(24)), status: [PS::Sent, PS::AckFailure, PS::TimedOut, PS::AckSuccess][(r.next() % 4) as usize].clone() };
                 let key = if r.next() % 4 == 0 { 500 + i } else { p.sequence };
-                v1_0_0::INFLIGHT_PACKETS.save(&mut deps.storage, key, &p).unwrap();
+                cw_storage_plus::Map::<u64, v1_0_0::IBCTransfer>::new("inflight").save(&mut deps.storage, key, &p).unwrap();
                 olds.push((key, p));
             }
             let m = r.next() % 3;
             let mut oldw = vec![];
             for i in 0..m {
                 let w = v1_0_0::IbcWaitingForReply { amount: r.amount().min(10u128.pow(24)) };
-                v1_0_0::IBC_WAITING_FOR_REPLY.save(&mut deps.storage, 9000 + i, &w).unwrap();
+                cw_storage_plus::Map::<u64, v1_0_0::IbcWaitingForReply>::new("ibc_waiting_for_reply").save(&mut deps.storage, 9000 + i, &w).unwrap();
                 oldw.push((9000 + i, w));
             }
             // gate: wrong source version / other contract / not newer
@@ -1415,7 +1415,7 @@ fn fam_migrate(r: &mut Rng) -> Result<(), String> {
                 minimum_liquid_stake_amount: Uint128::new(444), ibc_channel_id: "channel-55".into(), stopped: r.next() % 2 == 0,
                 oracle_address: if r.next() % 2 == 0 { None } else { Some(Addr::unchecked(b32("osmo", 66))) }, send_fees_to_treasury: send,
             };
-            v0_4_20::CONFIG.save(&mut deps.storage, &old).unwrap();
+            cw_storage_plus::Item::<v0_4_20::Config>::new("config").save(&mut deps.storage, &old).unwrap();
             let keep = others(&deps);
             let msg = MigrateMsg::V0_4_20ToV1_0_0 { native_account_address_prefix: "celestia".into(), native_validator_address_prefix: "celestiavaloper".into(), native_token_denom: "utia".into(), protocol_account_address_prefix: "osmo".into() };
             let mut d2 = restore(&dump(&deps.storage));
@@ -1447,7 +1447,7 @@ fn fam_migrate(r: &mut Rng) -> Result<(), String> {
                 oracle_contract_address: Some(Addr::unchecked(b32("osmo", 71))), oracle_contract_address_v2: Some(Addr::unchecked(b32("osmo", 72))),
                 oracle_address: if r.next() % 2 == 0 { None } else { Some(Addr::unchecked(b32("osmo", 73))) },
             };
-            v0_4_18::CONFIG.save(&mut deps.storage, &old).unwrap();
+            cw_storage_plus::Item::<v0_4_18::Config>::new("config").save(&mut deps.storage, &old).unwrap();
             let send = r.next() % 2 == 0;
             for v in ["0.4.19", "0.4.20", "0.4.17"] {
                 let mut d2 = restore(&dump(&deps.storage));
